@@ -442,12 +442,12 @@ func rewriteSpec(s string) (string, error) {
 	out = freshRe.ReplaceAllString(out, "${1}verif_fresh(")
 	out = prevRe.ReplaceAllString(out, "${1}verif_prev(")
 	out = callsRe.ReplaceAllString(out, "${1}verif_${2}(")
-	out = istypeRe.ReplaceAllString(out, "${1}verif_istype[")
+	out = istypeRe.ReplaceAllString(out, "${1}verif_${2}[")
 	return out, nil
 }
 
-var callsRe = regexp.MustCompile(`(^|[^\w.])(calls|lastarg|lastres|same|raw|fst|snd)\(`)
-var istypeRe = regexp.MustCompile(`(^|[^\w.])istype\[`)
+var callsRe = regexp.MustCompile(`(^|[^\w.])(calls|lastargn|lastarg|lastresn|lastres|same|raw|fst|snd)\(`)
+var istypeRe = regexp.MustCompile(`(^|[^\w.])(istype|ptr)\[`)
 var oldRe = regexp.MustCompile(`(^|[^\w.])old\(`)
 var freshRe = regexp.MustCompile(`(^|[^\w.])fresh\(`)
 var prevRe = regexp.MustCompile(`(^|[^\w.])prev\(`)
